@@ -139,6 +139,21 @@ func init() {
 		"verifNativeOverlap": func(th *thread, caller *frame, fn *ssa.Function, args []value, site ssa.Instruction) value {
 			return mkBool(false)
 		},
+		"verifCallerName": func(th *thread, caller *frame, fn *ssa.Function, args []value, site ssa.Instruction) value {
+			for fr := th.fr; fr != nil; fr = fr.caller {
+				n := fr.fn.String()
+				if strings.Contains(n, "verif") || strings.Contains(n, "/mempool.") || strings.Contains(n, "/mempool)") {
+					continue
+				}
+				// short form: pkg.Func or (*pkg.T).M$1 ...
+				if i := strings.LastIndex(n, "/"); i >= 0 {
+					n = n[i+1:]
+				}
+				n = strings.NewReplacer("(", "", ")", "", "*", "").Replace(n)
+				return n
+			}
+			return "?"
+		},
 		"verifTier": func(th *thread, caller *frame, fn *ssa.Function, args []value, site ssa.Instruction) value {
 			return mkInt(uint64(th.m.tier))
 		},
@@ -516,6 +531,14 @@ func (m *machine) timeIntrinsic(th *thread, fn *ssa.Function, args []value, site
 		return m.fromTerm(timeNs(m, args[0])), true
 	case "(time.Time).UTC", "(time.Time).Local", "(time.Time).Round", "(time.Time).Truncate":
 		return args[0], true
+	case "(time.Time).Date":
+		return tuple{mkInt(2006), mkInt(1), mkInt(2)}, true
+	case "(time.Time).Clock":
+		return tuple{mkInt(15), mkInt(4), mkInt(5)}, true
+	case "(time.Time).Weekday":
+		return mkInt(1), true
+	case "(time.Time).Year":
+		return mkInt(2006), true
 	case "(time.Time).Format":
 		return "Mon, 02 Jan 2006 15:04:05 GMT", true
 	case "(time.Time).AppendFormat":
